@@ -37,6 +37,9 @@ VOCAB = [
     ("commands", "getoutput", "nonstd"), ("UserDict", "UserDict", "nonstd"), ("cPickle", "loads", "nonstd"),
     ("urllib2", "urlopen", "nonstd"), ("Queue", "Queue", "nonstd"), ("__builtin__", "getattr", "builtins"),
     ("io", "open", "benign_std"), ("_io", "open", "benign_std"),      # the standard library's alias of builtins.open
+    # qualified names (followed from the module by attribute access): the callee is computed
+    ("glob", "os.system", "benign_std"), ("shlex", "os.getpid", "benign_std"), ("collections", "OrderedDict.fromkeys", "benign_std"),
+    ("datetime", "date.today", "benign_std"),
 ]
 SECOND = [("collections", "OrderedDict"), ("verif_sink", "other"), ("builtins", "getattr"), ("os", "getpid"),
           ("collections", "deque"), ("datetime", "date")]
